@@ -677,7 +677,7 @@ def emit_fn(u, file, nm, block):
     u.functions.append({"name": nm, "file": file, "line_start": it["line_start"], "line_end": it["line_end"],
                         "sha256": sha(b[it["start"]:it["end"]]), "props": props,
                         "closures_under_contract": sorted(closures.keys()), "closures_total": len(real_closures),
-                        "panic_sites": it["panic_sites"]})
+                        "panic_sites": it["panic_sites"], "calls": it.get("calls", [])})
 
 
 # -------------------------------------------------------------------------------------------------
@@ -792,8 +792,8 @@ def classify(unit, res):
         spans = d.get("spans", [])
         prim = [s for s in spans if s.get("is_primary")]
         sec = [s for s in spans if not s.get("is_primary")]
-        name, props, where = name_failure(unit, msg, prim, sec)
-        named.append({"obligation": name, "props": props, "message": msg, "where": where, "rendered": d.get("rendered", "")})
+        name, props, where, fnn = name_failure(unit, msg, prim, sec)
+        named.append({"obligation": name, "props": props, "message": msg, "where": where, "rendered": d.get("rendered", ""), "fn": fnn})
     # resource-limit style messages
     for d in res["diags"]:
         m = d.get("message", "")
@@ -857,9 +857,10 @@ def name_failure(unit, msg, prim, sec):
             props = sorted(set((props or []) + body_props))
             if src_ref:
                 name += "@%s:%d" % src_ref
+            return name, props or body_props, where, body_fn
         else:
             name = "%s.ensures[%s]" % (fn, label) if "postcondition" in msg or "post-condition" in msg else "%s.%s[%s]" % (fn, short, label)
-        return name, props or body_props, where
+        return name, props or body_props, where, fn
     if body_fn:
         cl = None
         for sp in prim + sec:
@@ -871,19 +872,19 @@ def name_failure(unit, msg, prim, sec):
             name = "%s.closure#%d.ensures" % (body_fn, cl)
             if src_ref:
                 name += "@%s:%d" % src_ref
-            return name, body_props, where
+            return name, body_props, where, body_fn
         name = "%s::%s" % (body_fn, short)
         if src_ref:
             name += "@%s:%d" % src_ref
-        return name, body_props, where
+        return name, body_props, where, body_fn
     # failure inside pure unit text (a lemma)
     for s in prim:
         inf = unit.linemap.get(s["line_start"], {})
         if inf.get("kind") == "unit":
             # find enclosing proof fn name by scanning backwards
             nm = enclosing_unit_fn(unit, s["line_start"])
-            return "%s::%s" % (nm, short), unit_fn_props(unit, nm), where
-    return "unit-%s::%s@%s" % (unit.name, short, lines[:1]), [], where
+            return "%s::%s" % (nm, short), unit_fn_props(unit, nm), where, nm
+    return "unit-%s::%s@%s" % (unit.name, short, lines[:1]), [], where, None
 
 
 def enclosing_unit_fn(unit, line):
